@@ -10,8 +10,15 @@
   (`x` strictly between `d` and `e` clockwise); `nexts T n` = `T` after `n` further `next` operations (and nothing
   else: "other players staying put"); `Passed T x n` = in the `(n+1)`-th of these the button passes `x`, i.e. `x` is
   strictly between the dealer of `nexts T n` and the dealer of `nexts T (n+1)`.
+  For the interleaved form of the second sentence (`newcomer_timing_interleaved`, Proofs/SMGapsNewcomer.lean): with `J`
+  the state right after the newcomer's `Join(x)` and `k` the number of hands started before he sits in,
+  `nhand J x k n` = the state at the start of hand `n`, i.e. right after the `n`-th `next` of the history
+  `Join(x); next^k; Seat(x); next^…` (`nhand_eq_run` spells it out as one `run`; `n = 0` is `J`);
+  `npre J x k n` = the state in which the `(n+1)`-th `next` is called (= `nhand … n`, after the `Seat(x)` when `n = k`);
+  `PassedN J x k n` = in the `(n+1)`-th `next` the button passes `x` (as `Passed`, over `nhand`).
 -/
 import Pokerface.Proofs.SMNewcomer
+import Pokerface.Proofs.SMGapsNewcomer
 
 namespace Pokerface.C08
 open SM
@@ -235,5 +242,98 @@ theorem d9_witness :
   rw [hd0] at hd; rw [he1] at he; cases hd; cases he
   rw [hm] at h3 h4 h5
   omega
+
+/-! ## Second sentence, join and sit-in interleaved with `next` (review gap 2) -/
+
+/-- **"… dealt in from exactly the first hand after the button has moved past that seat - not before, and not
+later"**, with the newcomer's `Join`, his sit-in (`Seat`) and the `next` operations *interleaved*.
+
+Setting, as in `newcomer_timing`: `S0 = (sm.step .next).1` is the state right after a successful `next` from any
+reachable state, dealer `d`, big blind `b`; seat `x` is empty in `S0` and strictly between `d` and `b`.
+History: the newcomer does `Join(x)` (state `J`); then `k ≥ 0` hands are started (`next`) while he has only joined
+(his seat is reserved); then he sits in (`Seat(x)`); then any number of further `next`s.  `nhand J x k n` is the state
+at the start of hand `n` (right after the `n`-th `next`); the sit-in happens between hand `k` and hand `k+1`.
+Conclusions, for every table size, every reachable `sm`, every `k` and every number of hands:
+* the `Join` and the `Seat` are accepted, and every `next` of the history succeeds (hands are really started);
+* the button passes `x` in the first or in the second `next` (whatever `k` is);
+* **not before / not later, as one equivalence**: `x` is playable (dealt in) at the start of hand `n` **iff** both
+  the sit-in has happened before that hand (`k < n`) and the button has passed `x` in one of the first `n` `next`s.
+  So he is not dealt in before BOTH have happened, he is dealt in in the first hand after both, and in every later one;
+* that first hand exists and is hand `k+1` (the first after the sit-in) or hand `2`: from it on, and not before;
+* between hands: right after the `Seat(x)` the seat counts as playable iff the button had already passed it while it
+  was reserved — the hand in progress (hand `k`) was started without him in either case (previous bullet, `n = k`).
+`k = 0` is `newcomer_timing`.
+
+**Excluded histories, explicitly** (all as in `newcomer_timing`):
+* *other players stay put*: between the last successful `next` before the `Join` and the end of the history the only
+  operations are the newcomer's own `Join(x)` and `Seat(x)` and `next`;
+  - this excludes **D4** (players sitting back in move the big blind in front of the newcomer and `renewSeatStatus`
+    activates him early),
+  - and **D10** (others leave, fewer than two playable seats remain and `Next()` lets every waiting player in at once);
+* seat `x` is empty *when the last `next` ran* (`hs`, `hemp` are about `S0`), so that `renewSeatStatus` deactivated
+  it — this excludes **D9** (a seat vacated after that `next` stays active; `d9_witness`).
+No witness against the generalised statement was found: it is proved as stated. -/
+theorem newcomer_timing_interleaved (sm : SM) (h : Reachable sm) (hok : (sm.step .next).2.1 = none)
+    (d b x : Nat) (s : Seat) (pid : Nat) (c : Option Nat) (k : Nat)
+    (hd : (sm.step .next).1.dealer = some d) (hb : (sm.step .next).1.bb = some b)
+    (hx : StrictlyBetween (sm.step .next).1.max d x b)
+    (hs : (sm.step .next).1.seats[x]? = some s) (hemp : s.player = none) :
+    ∃ J, J = ((sm.step .next).1.step (.join (x : Int) pid c)).1 ∧
+      -- the join is accepted: the seat now holds the newcomer, reserved and (still) inactive
+      ((sm.step .next).1.step (.join (x : Int) pid c)).2 = (none, some x) ∧
+      J.seats[x]? = some { player := some pid, active := false, reserved := true } ∧
+      -- the sit-in is accepted, every `next` succeeds
+      ((nhand J x k k).step (.seat (x : Int))).2.1 = none ∧
+      (∀ n, ((npre J x k n).step .next).2.1 = none) ∧
+      -- the button passes soon
+      (PassedN J x k 0 ∨ PassedN J x k 1) ∧
+      -- dealt in exactly when both have happened
+      (∀ n, (nhand J x k n).playable x = true ↔ (k < n ∧ ∃ m, m < n ∧ PassedN J x k m)) ∧
+      -- there is a first such hand; from it on, and not before
+      (∃ n0, k < n0 ∧ (n0 = k + 1 ∨ n0 = 2) ∧ ∀ n, (nhand J x k n).playable x = true ↔ n0 ≤ n) ∧
+      -- between hands, right after the sit-in
+      (((nhand J x k k).step (.seat (x : Int))).1.playable x = true ↔ ∃ m, m < k ∧ PassedN J x k m) := by
+  obtain ⟨d', ks, kb, hn⟩ := next_ok h.inv hok
+  have hdd : d' = d := by have := hn.dealer; rw [hd] at this; cases this; rfl
+  subst hdd
+  have hbb : b = (d' + kb) % sm.max := by have := hn.bb; rw [hb] at this; cases this; rfl
+  obtain ⟨a, b', ha0, hab, hb'm, hxa, hbe⟩ := hx
+  rw [hn.max_eq] at hb'm hxa hbe
+  have hkb : b' = kb := offset_inj hb'm hn.kb_lt (hbe.symm.trans hbb)
+  subst hkb
+  subst hxa
+  obtain ⟨w, hj, hseat⟩ := pending_init h.inv hn ha0 hab hs hemp pid c
+  exact ⟨_, rfl, hj, hseat, newcomer_sit_ok w k, newcomer_next_ok w k, newcomer_passed_soon w k,
+    newcomer_playable_iff w k, newcomer_first_hand w k, newcomer_sit_playable_iff w k⟩
+
+/-- `nhand` is the run of the operation list `Join(x); next^k; Seat(x); next^(n-k)` (cut after `n` `next`s). -/
+theorem nhand_is_run (S0 : SM) (x pid : Nat) (c : Option Nat) (k n : Nat) :
+    nhand (S0.step (.join (x : Int) pid c)).1 x k n =
+      S0.run (.join (x : Int) pid c ::
+        (if n ≤ k then List.replicate n .next
+         else List.replicate k .next ++ .seat (x : Int) :: List.replicate (n - k) .next)) :=
+  nhand_eq_run S0 x pid c k n
+
+/-- Non-vacuity of `newcomer_timing_interleaved`: 6 seats, players on 0, 2, 4, one hand played (dealer 0, sb 2, bb 4);
+seats 1 and 3 are empty, strictly between dealer and big blind, deactivated.
+(a) Newcomer joins seat 3, one hand is started while he is reserved (`k = 1`, button 0 → 2, not past seat 3), he sits
+in (still not playable), the next hand moves the button 2 → 4 past him: dealt in from hand 2.
+(b) Newcomer joins seat 1 and sits in only after two hands (`k = 2`): the button passes him in the first `next`
+(0 → 2) while he is reserved; he is dealt in neither in hand 1 nor in hand 2, counts as playable right after his
+sit-in, and is dealt in from hand 3 — the first hand after both. -/
+example : let S0 := (SM.new 6).run [.join 0 1 none, .seat 0, .join 2 2 none, .seat 2, .join 4 3 none, .seat 4, .next]
+    S0.dealer = some 0 ∧ S0.bb = some 4 ∧ S0.seats[3]? = some { player := none, active := false, reserved := false } ∧
+    S0.seats[1]? = some { player := none, active := false, reserved := false } ∧
+    (let J := (S0.step (.join 3 9 none)).1
+     (nhand J 3 1 0).playable 3 = false ∧
+     (nhand J 3 1 1).dealer = some 2 ∧ (nhand J 3 1 1).playable 3 = false ∧
+     ((nhand J 3 1 1).step (.seat 3)).1.playable 3 = false ∧
+     (nhand J 3 1 2).dealer = some 4 ∧ (nhand J 3 1 2).playable 3 = true ∧ (nhand J 3 1 3).playable 3 = true) ∧
+    (let J := (S0.step (.join 1 9 none)).1
+     (nhand J 1 2 1).dealer = some 2 ∧ (nhand J 1 2 1).playable 1 = false ∧
+     (nhand J 1 2 2).dealer = some 4 ∧ (nhand J 1 2 2).playable 1 = false ∧
+     ((nhand J 1 2 2).step (.seat 1)).1.playable 1 = true ∧
+     (nhand J 1 2 3).dealer = some 0 ∧ (nhand J 1 2 3).playable 1 = true) := by decide
+example : StrictlyBetween 6 0 1 4 := ⟨1, 4, by omega, by omega, by omega, rfl, rfl⟩
 
 end Pokerface.C08
